@@ -241,3 +241,17 @@ def run(f, fixture, rep, cfg, tier):
             rep.check(ok, "R4", "column|%s" % name, "%s: exactly one push per file" % name, "%s receives %d pushes per iteration / not on every iteration" % (name, len(cs)), cs[0].loc())
         wc = [c for c in pd.calls() if c.bb in blks and (c.decl.endswith("payload::Builder::write_cpio") or c.decl.endswith("stripped_cpio_header"))]
         rep.check(len(wc) == 2, "R4", "archive-in-loop", "the file's archive entry is written in the same iteration", "archive writes in the file loop: %s" % [c.decl for c in wc], pd.span)
+
+    # build_and_sign builds exactly what the caller configured: the builder handed to build() is `self`, untouched
+    if cfg != "no-default":
+        for bs in [x for x in f.find("PackageBuilder::build_and_sign") if x.kind != "closure"]:
+            tbs = TermBuilder(bs)
+            bc = [c for c in bs.calls() if c.decl.endswith("PackageBuilder::build")]
+            if rep.check(len(bc) == 1, "R1", "build_and_sign|build-call", "build_and_sign calls build() once", "build_and_sign calls build() %d times" % len(bc), bs.span):
+                recv = render(tbs.term(bc[0].args[0]))
+                rep.check(recv == (bs.local_name(1) or "self"), "R1", "build_and_sign|builds-self", "build_and_sign builds the builder as configured by the caller",
+                          "build_and_sign builds %s, not the builder it was called on: a setting is changed behind the caller's back (e.g. a source date that clamps file times)" % recv[:160], bc[0].loc())
+
+    # times given as chrono / SystemTime values (changelog entries, source date) are stored as the instant they denote
+    rep.rule("R5", "time inputs are converted exactly (C20's conversion tables)")
+    rep.include("c20", f, fixture, cfg, tier, "R5", "conversion of a time given to the builder", floor=8)
